@@ -1,0 +1,17 @@
+//go:build !verif
+
+package http
+
+import (
+	"net"
+	"sync"
+)
+
+// Verification hooks (see verif_on.go). Without the "verif" build tag they are
+// empty and inlined away.
+
+func verifNewServer(c Config) *Server { return nil }
+
+func verifListener(s *Server) net.Listener { return nil }
+
+func verifBeforeLock(m *sync.Mutex) {}
